@@ -10,7 +10,7 @@ COQ_IMPORTS = "Model.AnnotationOps Check.AnnCommon Model.Discretize"
 SHARD = 100
 RULE = ("discretize: random annotations (overlapping same-label tracks, 1-3 labels, gaps) on a 60-tick span, support "
         "None / larger / smaller than the extent, resolution a number or a SlidingWindow with duration = 1..5 steps, "
-        "optional duration and explicit label lists (permuted, with an absent label); one_hot_encoding: annotation "
+        "optional duration and explicit label lists (permuted, with an absent label), and the falsy-but-valid duration=0, labels=[] and an empty support segment; one_hot_encoding: annotation "
         "cropped to the support, support a Segment or a Timeline with a hole, explicit label lists incl. a missing "
         "label (ValueError), followed by one_hot_decoding of the result; regime K0; non-trivial = at least two "
         "frames active for some label")
@@ -37,6 +37,14 @@ def generate(rng, tier):
             [lo + rng.randrange(0, 8), max(lo + 9, hi - rng.randrange(0, 8))]
         lab = None if rng.random() < 0.6 else rng.sample(labels + ["zz"], rng.randrange(1, len(labels) + 2))
         duration = None if rng.random() < 0.7 else rng.randrange(1, 80)
+        # optional arguments given explicitly with falsy-but-valid values
+        y = rng.random()
+        if y < 0.04:
+            duration = 0
+        elif y < 0.08:
+            lab = []
+        elif y < 0.12:
+            sup = [lo + 3, lo + 3]                 # an empty support segment
         cases.append({"k": "disc", "recs": recs, "sup": sup, "dur": dur, "step": step, "labels": lab, "duration": duration,
                       "as_window": dur != step or rng.random() < 0.3})
     for _ in range(n):
@@ -58,6 +66,8 @@ def generate(rng, tier):
             s1 = rng.randrange(s0 + 1, region[1] + 1)
             recs.append([[s0, s1], rng.choice(["_", "x"]), rng.choice(labels)])
         lab = None if rng.random() < 0.6 else rng.sample(labels + ["zz"], rng.randrange(1, len(labels) + 2))
+        if rng.random() < 0.05:
+            lab = []                               # an explicit empty label list
         cases.append({"k": "onehot", "recs": recs, "sup": sup, "dur": dur, "step": step, "labels": lab,
                       "via_feature": rng.random() < 0.3})
     kinds = {}
